@@ -60,8 +60,13 @@ class Entry:
     __slots__ = ("parts", "complete", "key", "empty")
     def __init__(self, key, empty=False):
         self.key, self.parts, self.complete, self.empty = key, [], False, empty
-    def __iter__(self):            # a caller that streams the value (OpenmlSource does `yield from out`)
-        return iter(list(self.parts))
+    def __iter__(self):            # a caller that streams the value (OpenmlSource does `yield from out`): a yield point per part
+        for part in list(self.parts):
+            if _STREAM_SCHED[0] is not None:
+                _STREAM_SCHED[0].yield_()
+            yield part
+
+_STREAM_SCHED = [None]   # the scheduler of the running `openml` case (reading a value takes time: others may run meanwhile)
 
 class Monitor:
     def __init__(self):
@@ -597,74 +602,127 @@ def real_thread_cases(draw, tier):
 def run_openml(case):
     """OpenmlSource._get_data (the one caller of get_set/rmv inside coba) on a ConcurrentCacher over the monitored inner cache:
     every reader receives the complete document, a document is requested from the server at most once while its entry stays
-    cached (once more per removal), and all the lock/monitor conditions of `sched` hold."""
+    cached (once more per removal; a download that fails part-way makes the source clear ALL its keys - through the cache's
+    locks), and all the lock/monitor conditions of `sched` hold."""
     from coba.context import CobaContext
     from coba.environments.openml import OpenmlSource
-    s = Sched(choices=case.get("choices", ()), max_steps=6000, default_choice=case.get("tail", 0))
+    if case.get("preemptions") is not None:
+        s = Sched(max_steps=8000, preemptions={a: b for a, b in case["preemptions"]})
+    else:
+        s = Sched(choices=case.get("choices", ()), max_steps=8000, default_choice=case.get("tail", 0))
     mon, seen = Monitor(), {}
     inner = MonitorCache(s, mon)
-    for k in case.get("pre", []):
+    KEY = dict(OpenmlSource(data_id=7)._cache_keys)   # kind -> the real cache key of the source
+    for kind in case.get("pre", []):
+        k = KEY[kind]
         e = Entry(k); e.parts = value_for(k, -2); e.complete = True
         inner.store[k] = e
     array, lock = SeenArray(s, 2 ** 16, seen), SimLock(s, "table-lock")
     shared = ConcurrentCacher(inner, array, lock)
     requests, results = defaultdict(int), []
-    def http(url, *a, **kw):
-        key = url.split(":", 1)[1]
-        requests[key] += 1
-        gen = requests[key]
-        s.yield_()
-        yield key
-        s.yield_()
-        yield gen
-        yield "end"
+    def make_http(mode):
+        def http(url, *a, **kw):
+            key = url.split(":", 1)[1]
+            requests[key] += 1
+            gen = requests[key]
+            s.yield_()
+            yield key
+            s.yield_()
+            if mode == "fail":
+                raise Injected("download failed part-way")
+            yield gen
+            yield "end"
+        return http
     old_cacher, old_time = CobaContext.cacher, cachers_mod.time
     CobaContext.cacher, cachers_mod.time = shared, SleepShim(s, seen)
+    _STREAM_SCHED[0] = s
     try:
         for i, ops in enumerate(case["parts"]):
             name = f"T{i}"
             def body(ops=ops, name=name):
-                src = OpenmlSource(data_id=7)
-                src._http_request = http
                 for op in ops:
+                    key = KEY[op["key"]]
                     if op["op"] == "rmv":
-                        CobaContext.cacher.rmv(op["key"])
-                    else:
-                        results.append((name, op["key"], list(src._get_data("url:" + op["key"], op["key"]))))
+                        CobaContext.cacher.rmv(key)
+                        continue
+                    src = OpenmlSource(data_id=7)
+                    src._http_request = make_http(op.get("http", "ok"))
+                    try:
+                        results.append((name, key, list(src._get_data("url:" + key, key))))
+                    except Injected:
+                        pass
             s.spawn(name, body)
         result = s.run()
     finally:
         CobaContext.cacher, cachers_mod.time = old_cacher, old_time
-    case["_switches"] = len(s.trace)
+        _STREAM_SCHED[0] = None
+    case["_switches"], case["_steps"] = len(s.trace), s.steps
     verdict(case, s, result, mon, array, lock, [shared])
     info = dict(parts=case["parts"], pre=case.get("pre", []), trace=s.trace[:60])
     for name, key, got in results:
         require(len(got) == 3 and got[0] == key and got[2] == "end", "a reader of OpenmlSource._get_data did not receive the complete document",
                 caller=name, key=key, got=got, case=info)
+    all_ops = [op for ops in case["parts"] for op in ops]
+    fails = sum(1 for op in all_ops if op["op"] == "get" and op.get("http") == "fail")
     for key, n in requests.items():
-        removals = sum(1 for ops in case["parts"] for op in ops if op["op"] == "rmv" and op["key"] == key)
-        bound = (0 if key in case.get("pre", []) else 1) + removals
+        kind = next(k for k, v in KEY.items() if v == key)
+        removals = sum(1 for op in all_ops if op["op"] == "rmv" and op["key"] == kind)
+        bound = (0 if kind in case.get("pre", []) else 1) + removals + fails
         require(n <= bound, "a document was requested from the server more often than once per period in which it is not cached",
                 key=key, requests=n, bound=bound, case=info)
 
 @st.composite
 def openml_cases(draw, tier):
     n = draw(st.sampled_from([2, 2, 3]))
-    keys = ["k74", "k1"]
+    kinds = ["data", "feat"]
     def op():
-        return {"op": "rmv" if draw(st.integers(0, 4)) == 0 else "get", "key": draw(st.sampled_from(keys[:1] if draw(st.integers(0, 2)) else keys))}
+        kind = draw(st.sampled_from(kinds))
+        if draw(st.integers(0, 5)) == 0:
+            return {"op": "rmv", "key": kind}
+        return {"op": "get", "key": kind, "http": "fail" if draw(st.integers(0, 2)) == 0 else "ok"}
     return {"parts": [[op() for _ in range(draw(st.integers(1, 3)))] for _ in range(n)],
-            "pre": draw(st.lists(st.sampled_from(keys), unique=True, max_size=2)),
+            "pre": draw(st.lists(st.sampled_from(kinds), unique=True, max_size=2)),
             "choices": draw(st.lists(st.integers(0, 3), max_size=120)), "tail": draw(st.sampled_from([0, 0, 1, 2, 3]))}
+
+OPENML_PROGRAMS = [
+    ([[{"op": "get", "key": "data", "http": "ok"}], [{"op": "get", "key": "feat", "http": "fail"}]], ["data"]),   # a failed download clears ALL keys of the source
+    ([[{"op": "get", "key": "data", "http": "ok"}], [{"op": "get", "key": "data", "http": "fail"}]], []),
+    ([[{"op": "get", "key": "data", "http": "ok"}], [{"op": "get", "key": "data", "http": "ok"}]], []),
+    ([[{"op": "get", "key": "data", "http": "ok"}], [{"op": "rmv", "key": "data"}]], ["data"]),
+    ([[{"op": "get", "key": "data", "http": "ok"}, {"op": "get", "key": "feat", "http": "ok"}], [{"op": "get", "key": "feat", "http": "fail"}, {"op": "get", "key": "data", "http": "ok"}]], []),
+    ([[{"op": "get", "key": "data", "http": "ok"}], [{"op": "get", "key": "feat", "http": "fail"}], [{"op": "get", "key": "data", "http": "ok"}]], ["data"]),
+]
+
+def openml_pb_enumerate(tier):
+    """every schedule with at most one preemption (thorough: two, for the two-caller programs) of the fixed programs above"""
+    for parts, pre in OPENML_PROGRAMS:
+        prog = {"parts": parts, "pre": pre}
+        probe = dict(prog, preemptions=[])
+        try:
+            run_openml(probe)
+        except Exception:
+            pass
+        L = probe.get("_steps", 80) + 2
+        n_other = len(parts) - 1
+        yield dict(prog, preemptions=[])
+        for s1 in range(L):
+            for i1 in range(n_other):
+                yield dict(prog, preemptions=[[s1, i1]])
+        if tier == "thorough" and n_other == 1:
+            for s1 in range(L):
+                for s2 in range(s1 + 1, L):
+                    yield dict(prog, preemptions=[[s1, 0], [s2, 0]])
 
 def nontrivial_openml(case):
     per = [{op["key"] for op in ops} for ops in case["parts"]]
-    return any(a & b for a, b in itertools.combinations(per, 2)) and case.get("_switches", 3) >= 3
+    fails = any(op.get("http") == "fail" for ops in case["parts"] for op in ops)
+    return (fails or any(a & b for a, b in itertools.combinations(per, 2))) and case.get("_switches", 3) >= 3
 
 def classes_openml(case):
     out = []
     ops = [op for p in case["parts"] for op in p]
     if any(op["op"] == "rmv" for op in ops): out.append("with-rmv")
+    if any(op.get("http") == "fail" for op in ops): out.append("download-fails-part-way(clears-all-keys)")
     if case.get("pre"): out.append("pre-populated")
     gets = defaultdict(int)
     for op in ops:
@@ -760,6 +818,9 @@ SUBCHECKS = [
     Sub(name="openml", run=run_openml, strategy=openml_cases, nontrivial=nontrivial_openml, classes=classes_openml, key=key_sched,
         quick=1200, thorough=40000, quick_shards=2, thorough_shards=8, quick_budget_s=50,
         what="OpenmlSource._get_data (coba's own caller of get_set/rmv) by 2-3 concurrent callers with rmv in between, on the owned schedule: complete document for every reader, at most one server request per period in which the entry is not cached, all lock/monitor conditions"),
+    Sub(name="openml_pb", run=run_openml, enumerate=openml_pb_enumerate, nontrivial=lambda c: len(c["preemptions"]) >= 1, exhaustive=True, key=key_sched,
+        quick_shards=2, thorough_shards=8, quick_budget_s=50, thorough_budget_s=900,
+        what="complete enumeration of all schedules with <= 1 preemption (thorough: <= 2 for two callers) of six fixed OpenmlSource programs (cached reader vs failing download that clears all keys, two cold readers, reader vs rmv, ...)"),
     Sub(name="pb", run=run_pb, enumerate=pb_enumerate, nontrivial=lambda c: len(c["preemptions"]) >= 1, exhaustive=True,
         quick_shards=4, quick_budget_s=50, thorough_budget_s=1200,
         what="complete enumeration of all schedules with <= k preemptions of fixed programs over a 7-operation alphabet (incl. nested get_set on the same key and on another key): quick = two one-operation callers, k=1; thorough = the same with k=2, plus two callers with up to two operations and three one-operation callers with k=1"),
